@@ -138,7 +138,7 @@ theorem crash_preserves (kv : KVSpec) (ws : List (Str × Bytes)) {objs : List St
     misses at least one of them. If the block key is new and the pack (when there is one) is not already
     loadable, the new block is not complete in the resulting store. -/
 theorem any_subset_atomic (hout : out = DState.commitWrites H st info objOrder chgOrder)
-    (hinfo : ∀ i, info = some i → Canon i) {kv : KVSpec}
+    (hinfo : ∀ i, info = some i → Canon i) (hdep : ∀ i, info = some i → i.depth ≤ MAX_NESTING_DEPTH) {kv : KVSpec}
     (hfresh : kv.read out.block.id.key = none)
     (hpack : ∀ k, out.packName = some k → loadPackBytes H kv k = none)
     (ws' : List (Str × Bytes)) (hsub : ∀ w ∈ ws', w ∈ out.writes)
@@ -171,7 +171,7 @@ theorem any_subset_atomic (hout : out = DState.commitWrites H st info objOrder c
         cases hc with
         | mk _ b _ hf' _ _ _ => rw [hf] at hf'; cases hf'
       | some b' =>
-        have hpacks : b'.packs = out.block.packs := block_roundtrip_packs hout hinfo hread hf
+        have hpacks : b'.packs = out.block.packs := block_roundtrip_packs hout hinfo hdep hread hf
         have := C10.block_without_pack_incomplete (objs := objs) hf (k := k) (by rw [hpacks, hpk]; simp) hnone
         rwa [(C10.viewOf_ok H _).fetch_id _ _ hf] at this
   · -- the block is missing
@@ -250,6 +250,7 @@ theorem pack_loadable_after (hout : out = DState.commitWrites H st info objOrder
     objects, and the keys it writes were new (or already held the very same valid items). -/
 theorem commit_complete (hout : out = DState.commitWrites H st info objOrder chgOrder)
     (hinfo : ∀ i, info = some i → Canon i ∧ ∃ o, i = .obj o)
+    (hguard : DState.commitRefusesInfo info = false)
     (hanc : ∀ p ∈ st.p.anchors, C10.Canonical p)
     (hchg : ∀ c ∈ chgOrder, ChangeOK H c)
     (hcanId : C10.Canonical out.block.id) {kv : KVSpec}
@@ -261,7 +262,7 @@ theorem commit_complete (hout : out = DState.commitWrites H st info objOrder chg
     Complete (viewOf H (applyWrites kv out.writes)) objs out.block.id := by
   have hr := read_block_after hout hfresh
   have hf : (viewOf H (applyWrites kv out.writes)).fetch out.block.id = some out.block :=
-    block_roundtrip hout hinfo hanc hchg hr
+    block_roundtrip hout hinfo (Depth.info_depth_of_not_refused hguard (fun i hi => (hinfo i hi).2)) hanc hchg hr
   obtain ⟨h1, h2, h3, _⟩ := commit_block_members hout
   refine ⟨hf, Complete.mk _ out.block (mem_blockIds hcanId hr) hf ?_ ?_ ?_⟩
   · intro p hp
@@ -290,6 +291,7 @@ theorem commit_complete (hout : out = DState.commitWrites H st info objOrder chg
     attempt left in its orphan pack count, since every listed loadable pack is indexed. -/
 theorem retry_equiv (hout : out = DState.commitWrites H st info [] chgOrder)
     (hinfo : ∀ i, info = some i → Canon i ∧ ∃ o, i = .obj o)
+    (hguard : DState.commitRefusesInfo info = false)
     (hanc : ∀ p ∈ st.p.anchors, C10.Canonical p)
     (hchg : ∀ c ∈ chgOrder, ChangeOK H c)
     (hcanId : C10.Canonical out.block.id) {kv₁ : KVSpec}
@@ -300,7 +302,7 @@ theorem retry_equiv (hout : out = DState.commitWrites H st info [] chgOrder)
         changesReadable objs chgOrder = true)) := by
   have hr := read_block_after hout hfresh
   have hf : (viewOf H (applyWrites kv₁ out.writes)).fetch out.block.id = some out.block :=
-    block_roundtrip hout hinfo hanc hchg hr
+    block_roundtrip hout hinfo (Depth.info_depth_of_not_refused hguard (fun i hi => (hinfo i hi).2)) hanc hchg hr
   obtain ⟨h1, h2, h3, _⟩ := commit_block_members hout
   have hpn : out.packName = none := by rw [commit_packName hout]; rfl
   have hpk : out.block.packs = [] := by rw [h2, hpn]; rfl
@@ -328,6 +330,7 @@ theorem retry_after_crash {H : Bytes → Str} {st₁ st₂ : DState} {info₁ in
     (hout₁ : out₁ = DState.commitWrites H st₁ info₁ objOrder₁ chgOrder₁)
     (hout₂ : out₂ = DState.commitWrites H st₂ info₂ objOrder₂ chgOrder₂)
     (hinfo : ∀ i, info₂ = some i → Canon i ∧ ∃ o, i = .obj o)
+    (hguard : DState.commitRefusesInfo info₂ = false)
     (hanc : ∀ p ∈ st₂.p.anchors, C10.Canonical p)
     (hchg : ∀ c ∈ chgOrder₂, ChangeOK H c)
     (hcanId : C10.Canonical out₂.block.id) {kv : KVSpec}
@@ -341,7 +344,7 @@ theorem retry_after_crash {H : Bytes → Str} {st₁ st₂ : DState} {info₁ in
     Complete (viewOf H (applyWrites (applyWrites kv (out₁.writes.take n)) out₂.writes)) objs out₂.block.id := by
   refine ⟨(crash_prefix hout₁ hfresh₁ hn objs).2, ?_⟩
   have honly := prefix_only_packs hout₁ hn
-  refine (commit_complete hout₂ hinfo hanc hchg hcanId ?_ ?_ (fun p hp => crash_preserves kv _ (hpar p hp)) hread).2
+  refine (commit_complete hout₂ hinfo hguard hanc hchg hcanId ?_ ?_ (fun p hp => crash_preserves kv _ (hpar p hp)) hread).2
   · intro d hd
     rw [read_applyWrites_absent] at hd
     · rw [hfresh₂] at hd; cases hd
@@ -453,12 +456,12 @@ example (objs : List Str) : ¬ Complete (viewOf Hlen (applyWrites kv0 (outA.writ
 
 /-- the block written without (before) its pack is not complete -/
 example (objs : List Str) : ¬ Complete (viewOf Hlen (applyWrites kv0 (outA.writes.drop 1))) objs outA.block.id := by
-  refine any_subset_atomic outA_eq (fun i hi => (infoA_ok i hi).1) (by decide +kernel) packA_fresh _
+  refine any_subset_atomic outA_eq (fun i hi => (infoA_ok i hi).1) (by intro i hi; cases hi; decide) (by decide +kernel) packA_fresh _
     (fun w hw => List.mem_of_mem_drop hw) ⟨outA.writes.head (by decide +kernel), by decide +kernel, by decide +kernel⟩ objs
 
 /-- after both writes the block is complete -/
 example : Complete (viewOf Hlen (applyWrites kv0 outA.writes)) ["d".toList, "e".toList] outA.block.id := by
-  refine (commit_complete outA_eq infoA_ok (by decide +kernel) chgA_ok (by decide +kernel) ?_ ?_ ?_ (by decide +kernel)).2
+  refine (commit_complete outA_eq infoA_ok (by decide) (by decide +kernel) chgA_ok (by decide +kernel) ?_ ?_ ?_ (by decide +kernel)).2
   · intro d hd
     have : kv0.read outA.block.id.key = none := by decide +kernel
     rw [this] at hd; cases hd
@@ -478,7 +481,7 @@ def outR : DState.CommitOut := DState.commitWrites Hlen stA (some infoA) [] [chg
 
 example : Complete (viewOf Hlen (applyWrites (applyWrites kv0 (outA.writes.take 1)) outR.writes))
     ["d".toList, "e".toList] outR.block.id := by
-  refine (retry_after_crash (out₁ := outA) (out₂ := outR) outA_eq rfl infoA_ok (by decide +kernel) chgA_ok
+  refine (retry_after_crash (out₁ := outA) (out₂ := outR) outA_eq rfl infoA_ok (by decide) (by decide +kernel) chgA_ok
     (by decide +kernel) (by decide +kernel) (by decide +kernel) ?_ (n := 1) (by decide +kernel) ?_ (by decide +kernel)).2
   · intro k hk
     have : outR.packName = none := by decide +kernel
